@@ -9,7 +9,8 @@
              endpoint holds (hooks) and whether it is still running;
    - Ep    : a whole puppet-driven scenario against a real endpoint (either role, either stack,
              any state): the case carries only observed facts: panic, hang, maxima of the buffer
-             sizes sampled at every transport read, call-stack depth.
+             sizes sampled at every transport read, call-stack depth (datagram stack: frames of
+             readDatagram and of readRecordOrCCS on the stack at a ReadFrom call).
    mismatch  = the Gallina model and the implementation disagree;
    spec_code = the implementation's own observable behaviour violates a clause of C09
                (independent of the model): 1 panic, 2 hang / spin, 3 stream handshake buffer above
@@ -64,7 +65,7 @@ Inductive dev :=
 | DGram (recs : list drecord)
 | DForeign
 | DShort (n : nat).            (* a datagram of n < 13 bytes *)
-(* running, |handBuf|, reassembly buffers, their bytes, retryCount *)
+(* running, |handBuf|, reassembly buffers, their bytes (pend_bytes of Model/ConnD.v), retryCount *)
 Definition dobs := (bool * nat * nat * nat * nat)%type.
 
 Inductive case :=
@@ -77,9 +78,9 @@ Inductive case :=
 | KxGenEcdhe (kinds : list keykind) (skx : bytes) (point_ok verify_ok : bool) (own_enc : option bool)
              (as_vector : bool) (cls_skx cls_ckx : N) (body : bytes)
 | TraceT (w : want) (vers_known cipher : bool) (evs : list tev) (obs : list tobs)
-| TraceD (w : want) (vers_known cipher dwell : bool) (evs : list dev) (obs : list dobs) (max_depth base_depth : nat)
+| TraceD (w : want) (vers_known cipher dwell : bool) (evs : list dev) (obs : list dobs) (max_depth max_frames : nat)
 | EpT (panic hung : bool) (hand_len raw_len raw_cap post_hand retry depth : nat)
-| EpD (panic hung : bool) (hand_len raw_len pending pending_bytes post_hand retry depth : nat).
+| EpD (panic hung : bool) (hand_len raw_len pending pending_bytes post_hand retry depth frames : nat).
 
 (* ---------- model side: key exchange ---------- *)
 Definition cls_of {A} (r : res (kx A)) : N :=
@@ -211,9 +212,6 @@ Definition dev_dgram (epoch : N) (e : dev) : dgram :=
 Definition dev_fresh (e : dev) : list bool :=
   match e with DGram recs => map (fun r => negb (dr_replay r)) recs | _ => [] end.
 
-Definition pend_bytes (p : pending) : nat :=
-  fold_right (fun kv acc => length (fb_data (snd kv)) + length (fb_recv (snd kv)) + acc) 0 p.
-
 Definition dobs_agree (o : dobs) (c : dconn unit) : bool :=
   let '(running, hl, pn, pb, rt) := o in
   Bool.eqb running (d_alive c) &&
@@ -221,19 +219,19 @@ Definition dobs_agree (o : dobs) (c : dconn unit) : bool :=
    (Nat.eqb hl (length (d_hand c)) && Nat.eqb pn (length (d_pend c)) && Nat.eqb pb (pend_bytes (d_pend c)) &&
     Nat.eqb rt (d_retry c))).
 
-(* the code as built: fix11 = false *)
 Definition dstep_dgram (fresh : nat -> bool) (c : dconn unit) (d : dgram) : dconn unit :=
-  fst (fst (drun unit d_msg tr_ccs tr_dec fresh (fun _ => true) true false
+  fst (fst (drun unit d_msg tr_ccs tr_dec fresh (fun _ => true) true
                  (4 * (match d with FromPeer b => length b | Foreign => 0 end) + 8) c [d])).
 
-(* the result also carries the deepest readDatagram recursion of the model (d_depth) *)
+(* the result also carries the deepest retry recursion of the model (d_frames): the endpoint asks
+   for the next datagram in the state each event leaves *)
 Fixpoint trace_d (fresh : list bool) (c : dconn unit) (evs : list dev) (obs : list dobs) (deep : nat) : bool * nat :=
   match evs, obs with
   | e :: et, o :: ot =>
       (* the replay verdicts of this datagram's records, counted from the first record the
          endpoint takes from it (a warning alert discards the rest of its datagram) *)
       let c' := dstep_dgram (fun i => nth (i - d_n c) (dev_fresh e) true) c (dev_dgram (d_epoch c) e) in
-      let '(ok, dp) := trace_d fresh c' et ot (Nat.max deep (d_depth c')) in
+      let '(ok, dp) := trace_d fresh c' et ot (Nat.max deep (d_frames c')) in
       (dobs_agree o c' && ok, dp)
   | [], [] => (true, deep)
   | _, _ => (false, deep)
@@ -241,7 +239,7 @@ Fixpoint trace_d (fresh : list bool) (c : dconn unit) (evs : list dev) (obs : li
 
 Definition d_start (w : want) (vers_known cipher dwell : bool) : dconn unit :=
   mkD unit true w tt [] [] [] 0 (if vers_known then Some 257%N else None) cipher (if cipher then 1%N else 0%N)
-      false false dwell 0 0 false 0 0 false 0 1.
+      false false dwell 0 0 false 0 0 0 1.
 
 Definition mismatch (c : case) : bool :=
   match c with
@@ -253,13 +251,13 @@ Definition mismatch (c : case) : bool :=
   | KxGenEcc kinds cls body => mm_gen_ecc kinds cls body
   | KxGenEcdhe kinds skx p v own vec c1 c2 body => mm_gen_ecdhe kinds skx p v own vec c1 c2 body
   | TraceT w vk ci evs obs => negb (trace_t (t_start w vk ci) evs obs)
-  | TraceD w vk ci dw evs obs max_depth base_depth =>
-      (* the readDatagram recursion (frames of readDatagram on the stack at a ReadFrom call): one
-         more than the longest run of datagrams from foreign addresses the live endpoint read *)
+  | TraceD w vk ci dw evs obs max_depth max_frames =>
+      (* frames on the stack at a ReadFrom call: one of readDatagram (it loops over datagrams from
+         other addresses); of readRecordOrCCS one more than the deepest retry recursion *)
       let '(ok, deep) := trace_d [] (d_start w vk ci dw) evs obs 0 in
-      negb ok || negb (Nat.eqb max_depth (S deep))
+      negb ok || negb (Nat.eqb max_depth 1) || negb (Nat.eqb max_frames (S deep))
   | EpT _ _ _ _ _ _ _ _ => false
-  | EpD _ _ _ _ _ _ _ _ _ => false
+  | EpD _ _ _ _ _ _ _ _ _ _ => false
   end.
 
 (* ---------- the property on the implementation's own output ---------- *)
@@ -267,11 +265,13 @@ Definition mismatch (c : case) : bool :=
    rawInput <= one maximal record + one read (its capacity, itself below a fixed constant) *)
 Definition handWaitT : nat := 64 * 1024 + 3.
 Definition rawCapMax : nat := 9 * (18 * 1024 + 5 + 512).
-(* datagram: handBuf <= 12 + 65536 - 1 + one datagram; reassembly buffers <= maxHandshakeFragments,
+(* datagram: handBuf <= 12 + 65536 - 1 + one datagram's payload; reassembly buffers <= maxHandshakeFragments,
    each <= 65536 + 8192 bytes; datagram buffer <= 18432 + 13 *)
-Definition handMaxD : nat := 64 * 1024 + 11 + (18 * 1024 + 13).
+Definition handMaxD : nat := 12 + 64 * 1024 - 1 + 18 * 1024.
 Definition stackMax : nat := 96.    (* stream: frames on the stack at a transport read (retry recursion included) *)
 Definition rdMax : nat := 4.        (* datagram: frames of readDatagram on the stack at a ReadFrom call *)
+Definition rrMax : nat := 18.       (* datagram: frames of readRecordOrCCS on the stack at a ReadFrom call: the first and
+                                       at most maxUselessRecords + 1 entered through retryReadRecord *)
 
 Definition running_after_stall (obs : list (option (bool * nat * nat))) : bool :=
   (* some live observation shows retryCount above 16 *)
@@ -288,12 +288,12 @@ Definition spec_code (c : case) : N :=
       else if want_eqb w WApp &&
               existsb (fun o => match o with Some (true, hl, _) => Nat.ltb (16 * 1024) hl | _ => false end) obs then 5%N
       else 0%N
-  | TraceD w _ _ _ evs obs max_depth base_depth =>
+  | TraceD w _ _ _ evs obs max_depth max_frames =>
       if existsb (fun o => let '(running, _, _, _, rt) := o in running && Nat.ltb 16 rt) obs then 6%N
       else if existsb (fun o => let '(running, hl, _, _, _) := o in running && Nat.ltb handMaxD hl) obs then 7%N
       else if existsb (fun o => let '(running, _, pn, _, _) := o in running && Nat.ltb 256 pn) obs then 8%N
       else if existsb (fun o => let '(running, _, pn, pb, _) := o in running && Nat.ltb (pn * (72 * 1024)) pb) obs then 9%N
-      else if Nat.ltb rdMax max_depth then 10%N
+      else if Nat.ltb rdMax max_depth || Nat.ltb rrMax max_frames then 10%N
       else if want_eqb w WApp && existsb (fun o => let '(running, hl, _, _, _) := o in running && Nat.ltb 0 hl) obs then 5%N
       else 0%N
   | EpT panic hung hand_len raw_len raw_cap post_hand retry depth =>
@@ -305,14 +305,14 @@ Definition spec_code (c : case) : N :=
       else if Nat.ltb 17 retry then 6%N
       else if Nat.ltb stackMax depth then 10%N
       else 0%N
-  | EpD panic hung hand_len raw_len pending pending_bytes post_hand retry depth =>
+  | EpD panic hung hand_len raw_len pending pending_bytes post_hand retry depth frames =>
       if panic then 1%N else if hung then 2%N
       else if Nat.ltb handMaxD hand_len then 7%N
       else if Nat.ltb 256 pending then 8%N
       else if Nat.ltb (pending * (72 * 1024)) pending_bytes then 9%N
       else if Nat.ltb 0 post_hand then 5%N
       else if Nat.ltb 17 retry then 6%N
-      else if Nat.ltb rdMax depth then 10%N
+      else if Nat.ltb rdMax depth || Nat.ltb rrMax frames then 10%N
       else if Nat.ltb (18 * 1024 + 13) raw_len then 11%N
       else 0%N
   end.
